@@ -93,3 +93,12 @@ PROPS = {
         trusted=["protowire.ConsumeVarint/AppendVarint are modelled in Base/Varint.v (validated by the exact comparison of every case)"],
     ),
 }
+
+
+# per-property configuration may also live in lib/cfg_<id>.py (a module defining CFG = dict(...))
+import os as _os, glob as _glob, importlib.util as _ilu
+for _p in sorted(_glob.glob(_os.path.join(_os.path.dirname(_os.path.abspath(__file__)), "cfg_C*.py"))):
+    _spec = _ilu.spec_from_file_location(_os.path.basename(_p)[:-3], _p)
+    _m = _ilu.module_from_spec(_spec)
+    _spec.loader.exec_module(_m)
+    PROPS[_os.path.basename(_p)[4:-3]] = _m.CFG
